@@ -40,3 +40,10 @@ def fill(check, NA):
           "harvested from the compiled converters; result judged through textbook reference maps and validity clauses",
           "trusted: numpy textbook maps; tolerance 1e-9 outside, 2e-3 inside the documented gimbal band",
           "bounded exhaustive enumeration of conversion words x source alphabet with branch-edge harvesting vs textbook reference maps", "DESIGN.md section 4 C07")
+
+    check("C08", "model_checking",
+          "explicit-state BFS over all words of (a_b, w_b, g, dt) menu items from three initial states for the shipped strapdown_ins_propagate and for the same wiring over SE23Mrp.exp_mixed: every transition of the real "
+          "function compared with the closed-form flow reference model both accumulated along the word and locally, semigroup law on every state, dt=0 identity, unit norm; one-step lattice with |w| on both "
+          "sides of the small-angle switch harvested per dt",
+          "trusted: 80-digit power series for Gamma_1, Gamma_2; full 120-item menu to depth 2, 18-item menu to depth 3 (quick) / 4 (thorough)",
+          "bounded exhaustive exploration: explicit-state BFS over input-menu words of the real step function vs closed-form flow reference model", "DESIGN.md section 4 C08")
